@@ -245,6 +245,33 @@ func vfC20WantID(sent string, present bool) (echo string, mustEcho bool) {
 	return "", false
 }
 
+// vfC20IDClass names the kind of request id that was sent (signature class).
+func vfC20IDClass(sent string, present bool) string {
+	if !present {
+		return "id-absent"
+	}
+	t := strings.Trim(sent, " \t")
+	if t == "" {
+		return "id-blank"
+	}
+	c := "id-short"
+	switch {
+	case len(t) > 128:
+		c = "id-over-128B"
+	case len(t) == 128:
+		c = "id-exactly-128B"
+	}
+	if t != sent {
+		c += "-padded"
+	}
+	for _, r := range t {
+		if r > 127 {
+			return c + "-nonascii"
+		}
+	}
+	return c
+}
+
 type vfC20Checker struct {
 	x       *venum.X
 	e       *vfC20Env
@@ -260,21 +287,26 @@ func (c *vfC20Checker) check(label string, seq int, rec *httptest.ResponseRecord
 	hdr := rec.Header()
 	code := rec.Code
 	cls := fmt.Sprintf("%s:%d", label, code)
+	idc := vfC20IDClass(sentID, idPresent)
+	stage := fmt.Sprintf("status-%d", code)
+	if seq <= e.hookFails {
+		stage += "-before-serve-start"
+	}
 	// (1) correlation id
 	ids := hdr.Values(requestIDHeader)
 	if len(ids) != 1 {
-		x.Failf("C20:request-id:count:"+cls, "%d X-Request-ID values: %q", len(ids), ids)
+		x.Failf("C20:request-id:count:"+stage, "%s: %d X-Request-ID values: %q", cls, len(ids), ids)
 	} else {
 		got := ids[0]
 		want, mustEcho := vfC20WantID(sentID, idPresent)
 		switch {
 		case mustEcho && got != want:
-			x.Failf("C20:request-id:not-echoed:"+cls, "sent %q, response carries %q, want %q", sentID, got, want)
+			x.Failf("C20:request-id:not-echoed:"+idc, cls+": sent %q, response carries %q, want %q", sentID, got, want)
 		case !mustEcho && !vfC20Minted.MatchString(got):
-			x.Failf("C20:request-id:not-minted:"+cls, "sent %q (present=%v), response carries %q, want 16 lowercase hex", sentID, idPresent, got)
+			x.Failf("C20:request-id:not-minted:"+idc, cls+": sent %q (present=%v), response carries %q, want 16 lowercase hex", sentID, idPresent, got)
 		case !mustEcho:
 			if c.minted[got] {
-				x.Failf("C20:request-id:not-fresh:"+cls, "minted id %q was already used by an earlier response of this server", got)
+				x.Failf("C20:request-id:not-fresh:"+idc, cls+": minted id %q was already used by an earlier response of this server", got)
 			}
 			c.minted[got] = true
 		}
@@ -283,11 +315,11 @@ func (c *vfC20Checker) check(label string, seq int, rec *httptest.ResponseRecord
 	started := seq > e.hookFails
 	if started {
 		if _, ok := hdr[http.CanonicalHeaderKey(supportedEncodingsHeader)]; !ok {
-			x.Failf("C20:capability:supported-encodings-missing:"+cls, "response after a successful serve-start hook lacks %s", supportedEncodingsHeader)
+			x.Failf("C20:capability:supported-encodings-missing:"+stage, cls+": response after a successful serve-start hook lacks %s", supportedEncodingsHeader)
 		}
 		v := hdr.Get(externalizationEnabledHeader)
 		if v != "true" && v != "false" {
-			x.Failf("C20:capability:externalization-missing:"+cls, "%s = %q", externalizationEnabledHeader, v)
+			x.Failf("C20:capability:externalization-missing:"+stage, cls+": %s = %q", externalizationEnabledHeader, v)
 		}
 	}
 	// (3) CORS: whatever capability / rejection header this response carries must be exposed
@@ -305,7 +337,7 @@ func (c *vfC20Checker) check(label string, seq int, rec *httptest.ResponseRecord
 		}
 		exposeVals, has := hdr[http.CanonicalHeaderKey("Access-Control-Expose-Headers")]
 		if len(need) > 0 && !has {
-			x.Failf("C20:cors:no-expose-list:"+cls, "CORS is enabled and the response carries %v but no Access-Control-Expose-Headers", need)
+			x.Failf("C20:cors:no-expose-list:"+stage, cls+": CORS is enabled and the response carries %v but no Access-Control-Expose-Headers", need)
 		}
 		if has {
 			exposed := map[string]bool{}
